@@ -258,8 +258,17 @@ def run(ctx, build):
             a, b = '%s_labels_%s' % (short, kind), '%s_units_%s' % (short, kind)
             designed.append(((a, byname[a]), (b, byname[b])))
     plan = [()] + singles + designed + pairs[:(160 if ctx.quick() else 4000)]
+    plan = [(combo, lays[oi % len(lays)]) for oi, combo in enumerate(plan)]
+    # designed (independent of the seed): sides with more dimensions than points and single-point sides, valid and with the
+    # same shape damage to BOTH matrices of a side (the label count must be compared with the right axis, whatever the shape)
+    degenerate = [gen.Layout([1, 1], [0, 1], [3], [0]), gen.Layout([2], [0], [1, 1, 1], [0, 1, 2]), gen.Layout([1], [0], [1], [0]),
+                  gen.Layout([1], [0], [2, 2], [1, 0])]
+    shape_pairs = [(('%s_extra_%s' % (a, k), byname['%s_extra_%s' % (a, k)]), ('%s_extra_%s' % (b, k), byname['%s_extra_%s' % (b, k)]))
+                   for a, b in (('PI', 'PV'), ('SI', 'SV')) for k in ('row', 'col')]
+    for dl in degenerate:
+        plan += [((), dl)] + [(sp, dl) for sp in shape_pairs] + [((c,), dl) for c in cs if '_extra_' in c[0] or '_truncated' in c[0]]
     cases, meta = [], []
-    hist = {'objects': 0, 'valid': 0, 'single_corruptions': 0, 'pairs': 0, 'raised': {}, 'trees': 0, 'unapplicable_combinations': 0}
+    hist = {'valid_datasets_inside_search_trees': 0, 'objects': 0, 'valid': 0, 'single_corruptions': 0, 'pairs': 0, 'raised': {}, 'trees': 0, 'unapplicable_combinations': 0}
     distinct = set()
     path = os.path.join(ctx.tmp, 'c06.h5')
 
@@ -268,13 +277,18 @@ def run(ctx, build):
 
     tree_items = []
     with h5py.File(path, 'w') as f:
-        for oi, combo in enumerate(plan):
-            lay = lays[oi % len(lays)]
+        for oi, (combo, lay) in enumerate(plan):
             g = f.create_group('obj%05d' % oi)
             gen.write_layout(f, lay, group=g.name, main_name='Raw_Data')
             names = [c[0] for c in combo]
-            with common.quiet():
-                early = usid.USIDataset(g['Raw_Data'])      # a wrapper obtained while the dataset was still valid
+            try:
+                with common.quiet():
+                    early = usid.USIDataset(g['Raw_Data'])      # a wrapper obtained while the dataset was still valid
+            except Exception as e:
+                violate('USIDataset.__init__', 'valid_dataset', 'valid_dataset_refused', '%r for the undamaged dataset of %s' % (e, lay.describe()),
+                        {'layout': lay.describe(), 'corruptions': []})
+                del f[g.name]
+                continue
             try:
                 for _, fn in combo:
                     fn(g)
@@ -334,34 +348,47 @@ def run(ctx, build):
                     built2 = type(e).__name__
                 if (built2 == 'ok') != want or (not want and built2 != 'TypeError'):
                     violate('USIDataset.__init__ (from an earlier wrapper)', cls, 'wrapper_%s_but_rules_%s' % (built2, 'hold' if want else 'fail'), str(m)[:600], m)
-            tree_items.append((g.name, want, obs))
+            tree_items.append((g.name, want, obs, combo, lay))
             if len(out.samples) < 4 and combo:
                 out.samples.append({'corruptions': names, 'observed': obs, 'rules_hold': want})
         # ---- recursive search over trees mixing valid, corrupted and unrelated objects
         n_trees = 12 if ctx.quick() else 150
         for ti in range(n_trees):
             chosen = rng.sample(tree_items, min(len(tree_items), rng.randint(2, 6)))
+            # every tree holds at least one (every other tree two) valid Main datasets, so that the search has something to return
+            valid_items = [it for it in tree_items if it[1] and not it[3]]
+            if valid_items:
+                chosen += [valid_items[ti % len(valid_items)]] + ([valid_items[(ti * 7 + 3) % len(valid_items)]] if ti % 2 else [])
             t = f.create_group('tree%04d' % ti)
             t.create_dataset('unrelated', data=np.arange(4))
             t.create_group('sub').create_dataset('plain', data=[1.0])
             wanted = []
             any_raises = False
-            for ci, (gname, want, obs) in enumerate(chosen):
-                f.copy(f[gname], t, name='m%d' % ci)
-                # judged on the copy as it is NOW: a "dangling" link only dangles once the last open handle of the deleted
-                # ancillary is gone, which happens after the object was examined above
-                cp = t['m%d' % ci].get('Raw_Data')
+            for ci, (gname, want, obs, combo, lay) in enumerate(chosen):
+                # the same object built again inside the tree (h5py's copy would drop the reference attributes), every third
+                # one a level deeper; judged as it is NOW: a "dangling" link only dangles once the last open handle of the
+                # deleted ancillary is gone
+                rel = ('m%d' % ci) if ci % 3 else ('deeper/m%d' % ci)
+                sub = t.create_group(rel)
+                gen.write_layout(f, lay, group=sub.name, main_name='Raw_Data')
+                try:
+                    for _, fn in combo:
+                        fn(sub)
+                except Exception:
+                    pass
+                cp = sub.get('Raw_Data')
                 if cp is not None and is_main_spec(describe(f, cp, [])):
-                    wanted.append(t.name + '/m%d/Raw_Data' % ci)
+                    wanted.append(sub.name + '/Raw_Data')
                 any_raises |= obs == 2
             hist['trees'] += 1
+            hist['valid_datasets_inside_search_trees'] += len(wanted)
             try:
                 with common.quiet():
                     got = sorted(x.name for x in get_all_main(t))
                 if got != sorted(wanted):
                     diag = []
-                    for ci, (gname, want, obs) in enumerate(chosen):
-                        o = t['m%d' % ci].get('Raw_Data')
+                    for ci, (gname, want, obs, combo, lay) in enumerate(chosen):
+                        o = t[('m%d' % ci) if ci % 3 else ('deeper/m%d' % ci)].get('Raw_Data')
                         try:
                             with common.quiet():
                                 r = None if o is None else bool(check_if_main(o))
